@@ -128,6 +128,12 @@ impl Compound {
         Some(Self::new(names))
     }
 
+    /// Test if a unit with the given state is all there is to this
+    /// compound, with a power of one.
+    fn is_alone(&self, state: &State) -> bool {
+        self.names.len() == 1 && state.power == 1
+    }
+
     /// Test if this unit has a numerator.
     pub fn has_numerator(&self) -> bool {
         self.names.values().any(|s| s.power > 0)
@@ -179,13 +185,13 @@ impl Compound {
             *value *= Rational::new(10u32, 1u32).pow(state.prefix * state.power);
 
             if let Some(conversion) = name.conversion() {
-                apply_conversion(state.power, value, conversion)?;
+                apply_conversion(state.power, other.is_alone(state), value, conversion)?;
             }
         }
 
         for (name, state) in &self.names {
             if let Some(conversion) = name.conversion() {
-                apply_conversion(-state.power, value, conversion)?;
+                apply_conversion(-state.power, self.is_alone(state), value, conversion)?;
             }
 
             *value /= Rational::new(10u32, 1u32).pow(state.prefix * state.power);
@@ -247,7 +253,7 @@ impl Compound {
             *lhs *= Rational::new(10u32, 1u32).pow(state.prefix * state.power);
 
             if let Some(conversion) = name.conversion() {
-                apply_conversion(state.power, lhs, conversion)?;
+                apply_conversion(state.power, self.is_alone(state), lhs, conversion)?;
             }
         }
 
@@ -255,7 +261,7 @@ impl Compound {
             *rhs *= Rational::new(10u32, 1u32).pow(state.prefix * state.power);
 
             if let Some(conversion) = name.conversion() {
-                apply_conversion(state.power, rhs, conversion)?;
+                apply_conversion(state.power, other.is_alone(state), rhs, conversion)?;
             }
         }
 
@@ -279,6 +285,12 @@ impl Compound {
             // Step where we try to reconstruct some of the deconstructed names.
             // We use the left-hand side to guide us on possible alternatives.
             for (unit, power, n) in der {
+                // A scale with an offset is not a factor that can be moved
+                // between the operands, so it stays expanded.
+                if let Some(Conversion::Methods(..) | Conversion::Offset(..)) = unit.conversion() {
+                    continue;
+                }
+
                 powers.clear();
 
                 if !unit.powers(&mut powers, 1) {
@@ -317,7 +329,7 @@ impl Compound {
                     // original factor modifier, which we apply to mod_power to
                     // get the original power back. Then we multiply by `-1`
                     // because we want to shed the multiples here.
-                    apply_conversion(-mod_power, out, conversion)?;
+                    apply_conversion(-mod_power, false, out, conversion)?;
                 }
             }
 
@@ -519,14 +531,18 @@ impl fmt::Display for Compound {
     }
 }
 
+/// Apply the conversion of a unit `pow` times. A scale with an offset only
+/// denotes a temperature when it is `alone` in its compound with a power of
+/// one, any other use of it is refused.
 fn apply_conversion(
     pow: i32,
+    alone: bool,
     ratio: &mut Rational,
     conversion: Conversion,
 ) -> Result<(), CompoundError> {
     match conversion {
         Conversion::Methods(methods) => {
-            if pow.abs() != 1 {
+            if pow.abs() != 1 || !alone {
                 return Err(CompoundError);
             }
 
@@ -544,7 +560,7 @@ fn apply_conversion(
             }
         }
         Conversion::Offset(fraction) => {
-            if pow.abs() != 1 {
+            if pow.abs() != 1 || !alone {
                 return Err(CompoundError);
             }
 
